@@ -288,8 +288,26 @@ func c13Case(sh *explore.Shard, bi int, b c13Base, v c13Variant, modes []c13Mode
 	bc, _ := os.ReadFile(filepath.Join(bare, "config"))
 	os.WriteFile(filepath.Join(bare, "config"), bytes.Replace(bc, []byte("bare = false"), []byte("bare = true"), 1), 0o644)
 	os.RemoveAll(filepath.Join(bare, "worktrees")) // the bare copy carries no linked worktrees
+	// "elsewhere" is the top of the work tree of ANOTHER non-bare repository: a
+	// run that names its repository through GIT_DIR / --git-dir from there must
+	// still measure the named one
 	elsewhere := filepath.Join(dir, "elsewhere")
 	os.MkdirAll(elsewhere, 0o755)
+	{
+		other := mrepo.New()
+		ob := other.AddBlob([]byte("another repository\n"))
+		ot := other.AddTree([]mrepo.Entry{{Mode: 0o100644, Name: "other.txt", Child: ob}})
+		oc := other.AddCommit(mrepo.CommitSpec{Tree: ot, Time: gen.T0, Message: "the only commit of the other repository\n"})
+		other.SetRef("refs/heads/main", oc)
+		other.Head = "ref: refs/heads/main"
+		ogd := filepath.Join(elsewhere, ".git")
+		if err := realgit.Materialise(other, ogd); err != nil {
+			herr(err.Error())
+			return
+		}
+		oc2, _ := os.ReadFile(filepath.Join(ogd, "config"))
+		os.WriteFile(filepath.Join(ogd, "config"), bytes.Replace(oc2, []byte("bare = true"), []byte("bare = false"), 1), 0o644)
+	}
 
 	sc := &gen.Scenario{Repo: &stored}
 	want := oracle.Compute(&stored, sc.Roots()).Numbers()
@@ -380,6 +398,6 @@ func c13Case(sh *explore.Shard, bi int, b c13Base, v c13Variant, modes []c13Mode
 
 func init() {
 	Registry["C13"] = &Check{Level: "exploration", Worker: c13Worker, QuickBudget: 80 * time.Second, ThoroughBudget: 10 * time.Minute,
-		Rule:        "real binary + real git: 2 base repositories x {plain; every single replacement of a commit, tip commit, tree, subtree, blob, tag by an otherwise unreachable bigger/other object and by an object that is reachable in its own right, with and without GIT_NO_REPLACE_OBJECTS in the caller's environment; every single graft (add a parent, drop all parents, redirect, give the root a parent) in .git/info/grafts and in a file named by GIT_GRAFT_FILE in the caller's environment; a shallow marker; a per-worktree reference (refs/worktree/only) in the linked worktree, which only runs addressed through that worktree must see; thorough additionally replaces every reachable object in turn, grafts every commit in turn, and combines every replacement with every graft} x 9 addressing modes of a repository whose path contains a blank (top, subdirectory, inside .git, bare copy, linked worktree, GIT_DIR absolute from elsewhere, GIT_DIR relative, git -C <dir> sizer, git --git-dir=<d> sizer) x {JSON, verbose table}: stdout byte-identical across modes; numbers equal the oracle on the objects actually stored (refs/replace/* counting as ordinary references); shallow refused cleanly in every mode; plus, through fakegit's log, every git command of a run carries --no-replace-objects, GIT_GRAFT_FILE=/dev/null and the resolved GIT_DIR even when the caller's environment sets other values. non-trivial = every variant",
+		Rule:        "real binary + real git: 2 base repositories x {plain; every single replacement of a commit, tip commit, tree, subtree, blob, tag by an otherwise unreachable bigger/other object and by an object that is reachable in its own right, with and without GIT_NO_REPLACE_OBJECTS in the caller's environment; every single graft (add a parent, drop all parents, redirect, give the root a parent) in .git/info/grafts and in a file named by GIT_GRAFT_FILE in the caller's environment; a shallow marker; a per-worktree reference (refs/worktree/only) in the linked worktree, which only runs addressed through that worktree must see; thorough additionally replaces every reachable object in turn, grafts every commit in turn, and combines every replacement with every graft} x 9 addressing modes of a repository whose path contains a blank (top, subdirectory, inside .git, bare copy, linked worktree, GIT_DIR absolute from the top of another repository's work tree, GIT_DIR relative, git -C <dir> sizer, git --git-dir=<d> sizer) x {JSON, verbose table}: stdout byte-identical across modes; numbers equal the oracle on the objects actually stored (refs/replace/* counting as ordinary references); shallow refused cleanly in every mode; plus, through fakegit's log, every git command of a run carries --no-replace-objects, GIT_GRAFT_FILE=/dev/null and the resolved GIT_DIR even when the caller's environment sets other values. non-trivial = every variant",
 		Assumptions: []string{"git 2.39.5; the linked worktree is created with git worktree add (detached at the root commit)"}}
 }
